@@ -134,10 +134,46 @@ func check(prop, tier, repo, verif string) (code int) {
 		ctx.Assume(a)
 	}
 	pr.Run(ctx)
+	deepInfo := map[string]interface{}{}
+	if tier == "thorough" {
+		// second pass with deeper exploration parameters. A violation it finds is added; an exploration
+		// that exceeds its (larger) budget is noted and the first pass's verdict for it stands.
+		deep := core.NewCtx(prop, tier, p)
+		deep.Deep = true
+		pr.Run(deep)
+		have := map[string]bool{}
+		for _, o := range ctx.Obs {
+			if o.Verdict != core.Discharged {
+				have[o.Rule+"|"+o.Func+"|"+o.Msg] = true
+			}
+		}
+		added, budget := 0, 0
+		for _, o := range deep.Obs {
+			if o.Verdict == core.Discharged {
+				continue
+			}
+			if strings.Contains(o.Msg, "budget of") {
+				budget++
+				ctx.Note("deep pass: " + o.Key + ": " + o.Msg + " — the quick-depth verdict stands")
+				continue
+			}
+			if !have[o.Rule+"|"+o.Func+"|"+o.Msg] {
+				added++
+				o.Key += "|deep"
+				ctx.Obs = append(ctx.Obs, o)
+			}
+		}
+		ctx.States += deep.States
+		ctx.Transitions += deep.Transitions
+		deepInfo = map[string]interface{}{"obligations": len(deep.Obs), "abstract_states": deep.States, "explorations_over_budget": budget, "violations_found_only_at_depth": added, "parameters": "two exactly explored iterations per loop, inlining depth 7, 400000 states / 60 s per exploration"}
+	}
 	extra := map[string]interface{}{
 		"canaries": map[string]interface{}{"checked": canRes.Checked, "fired_on_bad": canRes.Fired, "silent_on_good": canRes.Silent},
 		"rules":    pr.Rules,
 		"does_not_decide": pr.NotDecided,
+	}
+	if len(deepInfo) > 0 {
+		extra["deep_pass"] = deepInfo
 	}
 	if tier == "thorough" && pr.Thorough != nil {
 		for k, v := range pr.Thorough(ctx, repo, verif, seed) {
